@@ -226,7 +226,7 @@ func (sc *SpecCtx) selector(x *SExpr) Val {
 	// auto-dereference
 	if pt, ok := t.Underlying().(*types.Pointer); ok {
 		p := sc.st.asPtr(base)
-		st, ok := pt.Elem().Underlying().(*types.Struct)
+		st, ok := sc.st.e.P.canonT(pt.Elem()).Underlying().(*types.Struct)
 		if !ok {
 			sc.fail("selector %s on pointer to non-struct %s", name, t)
 		}
@@ -254,6 +254,7 @@ func (sc *SpecCtx) selector(x *SExpr) Val {
 		}
 		return sc.load(np)
 	}
+	t = e.P.canonT(t)
 	if st, ok := t.Underlying().(*types.Struct); ok && !isTimeTime(t) {
 		idx, _ := findField(st, name)
 		if idx < 0 {
